@@ -328,6 +328,10 @@ def main():
                         items.append((cfg, cwd, bf, nf, bi, ni))
                         if (bf, bi) in (('', ''), ('o/', 'o/'), ('', '../')) and nf <= 2:
                             items.append((cfg, cwd, bf, nf, bi, min(ni, 4 if quick else 5), ''))      # imported file without the .ts suffix
+                            if nf >= 1:
+                                # names with an inner extension: declaration files (`x.d.ts`), `x.js.ts`, `x.ts.ts`
+                                for sfx in ('.d.ts', '.js.ts', '.ts.ts'):
+                                    items.append((cfg, cwd, bf, nf, bi, min(ni, 2), sfx))
     comp_items = []
     for kf in range(0, 4 if quick else 5):
         for ki in range(0, 4 if quick else 5):
